@@ -1,0 +1,38 @@
+//go:build verif
+
+package sync2
+
+import "sync/atomic"
+
+// VerifLayout reports the internal layout of the map:
+// len(read.m), read.amended (0/1), len(dirty) or -1 when dirty is nil, misses,
+// and the number of expunged and of nil entries among read.m.
+// Verification hook; only compiled with the "verif" build tag. Not safe for
+// concurrent use.
+func (m *Map[K, V]) VerifLayout() [6]int {
+	read, _ := m.read.Load().(readOnly[K, V])
+	var out [6]int
+	out[0] = len(read.m)
+	if read.amended {
+		out[1] = 1
+	}
+	out[2] = -1
+	if m.dirty != nil {
+		out[2] = len(m.dirty)
+	}
+	out[3] = m.misses
+	for _, e := range read.m {
+		p := atomic.LoadPointer(&e.p)
+		if p == expunged {
+			out[4]++
+		} else if p == nil {
+			out[5]++
+		}
+	}
+	return out
+}
+
+// VerifMap exposes the map inside a Set to the verification harness.
+func (s *Set[T]) VerifMap() *Map[T, struct{}] {
+	return &s.m
+}
